@@ -347,9 +347,13 @@ class Run(object):
             to = op.get('to', -1)
             sws = op.get('sws', -1)
             if api == 'expect_exact':
+                if op.get('pos'):
+                    return child.expect_exact(self.build_plist(op['pats'], True), to, sws)
                 return child.expect_exact(self.build_plist(op['pats'], True), timeout=to, searchwindowsize=sws)
             pl = self.build_plist(op['pats'], False)
             if api == 'expect_list':
+                if op.get('pos'):
+                    return child.expect_list(pl, to, sws)
                 return child.expect_list(pl, timeout=to, searchwindowsize=sws)
             if api == 'expect_loop':
                 from pexpect.expect import searcher_re
@@ -366,6 +370,8 @@ class Run(object):
                 self._prev_raw_list = pl
             if len(pl) == 1 and op.get('single'):
                 pl = pl[0]
+            if op.get('pos'):
+                return child.expect(pl, to, sws)         # the same call with positional arguments
             return child.expect(pl, timeout=to, searchwindowsize=sws)
         if kind == 'read':
             return child.read(op.get('n', -1))
@@ -392,6 +398,8 @@ class Run(object):
             self.w.probe('attribute_changed_between_calls')
             return None
         if kind == 'rnb':
+            if op.get('kw'):
+                return child.read_nonblocking(size=op.get('size', 1), timeout=op.get('to', -1))
             return child.read_nonblocking(op.get('size', 1), op.get('to', -1))
         if kind == 'send':
             return child.send(self.sconv(op['d'], op.get('as')))
